@@ -41,7 +41,10 @@ MANIFEST = dict(
          "Beyond load time the check also evaluates the property on the sample as exposed later: the final headers of every corpus / "
          "synthetic module (DBM in both chunk orders) against LoadPost.epilogueLoop and the loop-range clause, and the PCM + guard "
          "frames after playback (one-instrument module around each tested sample and the corpus modules themselves, nearest/linear/"
-         "spline, loop end == len) against their load-time content, which the load correspondence ties to the Lean reference.",
+         "spline, loop end == len, Protracker sample swaps between two looped samples) against their load-time content, which the "
+         "load correspondence ties to the Lean reference; and the truncation clause at loader level: every corpus / synthetic module "
+         "cut around the start and the end of EVERY sample, through memory, FILE and callbacks, each sample read from the offset it "
+         "is stored at and exposing exactly the whole frames present as a prefix of what the whole file exposes.",
     note="Trusted: Lean kernel (propext/Classical.choice/Quot.sound only), the hand-written definitions in XmpModel/Sample.lean "
          "(loop-style model and closed-form specification), tools/gen_sample.py, the harness and differ. Modelled-not-verified: the HIO "
          "layer (hio_tell/hio_size/hio_read/hio_seek are assumed: a read delivers min(requested, what is left of `limit`) bytes and "
@@ -54,7 +57,10 @@ MANIFEST = dict(
          "talks about) is a hand transcription checked against the C only by ASan in the harness. Correspondence is differential "
          "(quick: sampled; thorough: exhaustive small space + sampled large + whole corpus), not a proof about the C text. "
          "Post-playback integrity is only evaluated (direct oracle, no Lean model of the mixer's loop wrap-around: that is C15's); "
-         "LoadPost.epilogueLoop is C03's model, used read-only.",
+         "LoadPost.epilogueLoop is C03's model, used read-only. The loader-level cut oracle is skipped for a cut file that is read "
+         "as a different layout (type/pat/trk/chn/ins/smp/len or a declared sample length differ: several loaders size tables from "
+         "the file length). A sample cut short by the end of the stream consumes the rest of it (cd1ebb4); the stream position after a "
+         "truncated load is modelled as the end of the stream.",
     technique="Lean 4 proofs by induction over each pass (loop = closed form) + regenerated constants + differential "
               "correspondence and closed-form oracle against the sanitized C",
     design_ref="DESIGN.md section 4 C20",
@@ -132,7 +138,7 @@ def job(args):
     rc, out, err = vlib.run_exe(exe, hargs, timeout=3000)
     res = {"args": hargs, "n": 0, "bad": [], "abort": None, "stats": {}, "keys": [], "samples": [], "validated": 0}
     text = out.decode("latin-1")
-    if rc != 0 and hargs[0] == "corpus" and "libxmp_load_sample" not in err:
+    if rc != 0 and hargs[0] in ("corpus", "cuts") and "libxmp_load_sample" not in err:
         # a crash of some loader outside the sample routine is not C20's business: redo file by file, drop the crashing ones
         if len(hargs) > 3:
             merged = dict(res)
@@ -167,7 +173,7 @@ def job(args):
     cases, rl, ol, er, epi = [], [], {}, {}, {}
     for l in hl:
         c = l[0] if l else ""
-        if c == "c":
+        if c == "c" and l.startswith("case "):
             cases.append(l)
         elif c == "E" and l.startswith("ER "):
             f = l.split(" ", 2)
@@ -186,6 +192,12 @@ def job(args):
             for kv in l.split(" ")[1:]:
                 k, v = kv.split("=")
                 res["stats"]["corpus_calls_" + k] = res["stats"].get("corpus_calls_" + k, 0) + int(v)
+        elif l.startswith("cutstat "):
+            for kv in l.split(" ")[1:]:
+                k, v = kv.split("=")
+                res["stats"]["cuts_" + k] = res["stats"].get("cuts_" + k, 0) + int(v)
+                if k == "compared":
+                    res["extra_evals"] = res.get("extra_evals", 0) + int(v)
         elif l.startswith("file "):
             res["stats"]["corpus_files"] = res["stats"].get("corpus_files", 0) + 1
             if " ret=0 " in l:
@@ -309,8 +321,9 @@ def job(args):
     cids = None
     for k, what in ol.items():
         if k.startswith("c") and "_e" in k:
-            res["bad"].append({"kind": "module-oracle", "id": k, "O": what, "file": hargs[2:]})
-    res["n"] = len(cases)
+            res["bad"].append({"kind": "module-oracle", "id": k, "O": what, "file": hargs[2:], "mode": hargs[0]})
+    res["n"] = len(cases) + res.get("extra_evals", 0)
+    res["mode"] = hargs[0]
     return res
 
 
@@ -346,6 +359,14 @@ def synth_modules(ck, nrandom):
                 fn = os.path.join(d, "dbm-order%d-loops%d.dbm" % (oi, g))
                 open(fn, "wb").write(data)
                 out.append(fn)
+        # Protracker modules with several short samples (the MOD loader probes 5 bytes ahead of every sample)
+        for mi, lens in enumerate([(8, 12, 20), (2, 6, 4, 10), (30, 2, 2, 16)]):
+            smps = [(bytes(rng.randrange(256) for _ in range(n)), 64, 0, 1) for n in lens]
+            rows = {0: [(0, 428, 1, 0, 0)], 4: [(1, 428, 2, 0, 0)], 8: [(0, 0, 2, 0, 0)]}
+            data = synthmods.mod_module(smps, rows)
+            fn = os.path.join(d, "mod-short-samples%d.mod" % mi)
+            open(fn, "wb").write(data)
+            out.append(fn)
         gens = [getattr(synthmods, n) for n in ("gen_dbm", "gen_mmd", "gen_xm", "gen_it", "gen_s3m", "gen_mod", "gen_dbm", "gen_mmd")
                 if hasattr(synthmods, n)]
         for i in range(nrandom):
@@ -429,10 +450,17 @@ def run(ck):
     ck.rng.shuffle(files)
     if quick:
         files = files[:96]
-    files = synth_modules(ck, 40 if quick else 400) + files
+    files = synth_modules(ck, 40 if quick else 400) + files     # synthetic ones first: they are always in the quick slice
     per = 6 if quick else 16
     for i in range(0, len(files), per):
         jobs.append((exe, ["corpus", "60000" if quick else "400000"] + files[i:i + per], have_driver))
+    # loader-level truncation: every module cut around the start and the end of every sample, three entry points
+    cfiles = [f for f in files if os.path.getsize(f) < 600000]
+    if quick:
+        cfiles = cfiles[:140]
+    per = 9 if quick else 16
+    for i in range(0, len(cfiles), per):
+        jobs.append((exe, ["cuts", "120" if quick else "400"] + cfiles[i:i + per], have_driver))
     results = vlib.pmap(job, jobs, workers=16)
     stats = {}
     modes = {}
@@ -466,8 +494,8 @@ def run(ck):
                     blob = open(fn, "rb").read().hex()
                 ck.violation("sample:oracle:" + b["O"].split(" ")[0],
                              {"files": [fn] if fn else b["file"], "module_name": os.path.basename(fn) if fn else None, "module_hex": blob,
-                              "sample": b["id"], "oracle": b["O"],
-                              "how": "c20_sample corpus 400000 <file> ; look for `O` lines"},
+                              "sample": b["id"], "oracle": b["O"], "mode": b.get("mode", "corpus"),
+                              "how": "c20_sample %s 400 <file> ; look for `O` lines" % b.get("mode", "corpus")},
                              "a sample of a successfully loaded module violates the property: %s (%s) ; files %s"
                              % (b["O"], b["id"], " ".join(os.path.basename(x) for x in b["file"])[:300]))
                 continue
@@ -509,7 +537,7 @@ def run(ck):
                       "random (all 12 flag bits, 8/16 bit, mono/stereo, len -3..64 and > MAX_SAMPLE_SIZE, loop points incl. inverted/"
                       "out-of-range/INT_MIN/INT_MAX, avail 0..need+9, NULL handle), big (len 65..70000), exh (every combination of the 10 "
                       "effective flag bits x width x layout x len 0..9 x every avail 0..need+3 x rotating loop grid (3 points per combination in quick, 12 in thorough, of 252), plus the full loop grid "
-                      "on 4 flag sets; quick runs a seed-chosen 16/4096 slice), short / exhs (callback HIO handle whose read function delivers only `limit` bytes although hio_size() promised more: random cases with limit 0, need-1, 0..need+1, >= avail; and every width x len 1..6 x {complete, longer, truncated} stream x every limit 0..need+1 on 8 flag sets incl. ADPCM), corpus (every call real loaders make to libxmp_load_sample while the repository's test modules and synthetic DBM/MED/XM/IT/S3M/MOD modules - DBM in both chunk orders with loops inside, at and beyond the data - are loaded from memory, recorded by a --wrap spy with the stream cut to need+8 bytes; every sample header entering and leaving libxmp_load_epilogue; the final headers; 12 frames of playback per interpolator). After every Nth load-time case (all in random/short/exhs/replay, 1/8 in exh) a one-instrument module is built around the loaded sample and played with nearest/linear/spline, as loaded and with a loop ending at len and a bidirectional inner loop, and the allocation is compared with its load-time content. distinct = hash of the case without its id; non-trivial = "
+                      "on 4 flag sets; quick runs a seed-chosen 16/4096 slice), short / exhs (callback HIO handle whose read function delivers only `limit` bytes although hio_size() promised more: random cases with limit 0, need-1, 0..need+1, >= avail; and every width x len 1..6 x {complete, longer, truncated} stream x every limit 0..need+1 on 8 flag sets incl. ADPCM), corpus (every call real loaders make to libxmp_load_sample while the repository's test modules and synthetic DBM/MED/XM/IT/S3M/MOD modules - DBM in both chunk orders with loops inside, at and beyond the data - are loaded from memory, recorded by a --wrap spy with the stream cut to need+8 bytes; every sample header entering and leaving libxmp_load_epilogue; the final headers; 12 frames of playback per interpolator, and the `cuts` generator: each of these modules is loaded whole, recording where every sample's stored bytes start and end, then cut at sample_start + {-1..6} and sample_end - {0,1,2} of every sample and loaded through xmp_load_module_from_memory / _from_file / _from_callbacks: each sample must be read from the offset it is stored at, expose exactly the whole frames present, as a prefix of what the whole file exposes, and nothing when it lies after the cut). After every Nth load-time case (all in random/short/exhs/replay, 1/8 in exh) a one-instrument module is built around the loaded sample and played with nearest/linear/spline, as loaded and with a loop ending at len and a bidirectional inner loop, and the allocation is compared with its load-time content. distinct = hash of the case without its id; non-trivial = "
                       "the real code allocated PCM with len' > 0 and a conversion applied, the sample was truncated, or loop/flags changed, or a short read made the load fail")
     ck.assumptions += [
         "memory HIO handle semantics (hio_tell/hio_size/hio_read/hio_seek) as modelled: reads are complete up to the end, seeks clamp",
@@ -528,7 +556,8 @@ def replay(ck, rp):
             fn = os.path.join(vlib.OUT, "c20-replay-" + (r.get("module_name") or "module.bin"))
             open(fn, "wb").write(bytes.fromhex(r["module_hex"]))
             files = [fn]
-        rc, out, err = vlib.run_exe(exe, ["corpus", "400000"] + files)
+        mode = r.get("mode", "corpus")
+        rc, out, err = vlib.run_exe(exe, [mode, "400000" if mode == "corpus" else "400"] + files)
         olines = [l for l in out.decode("latin-1").splitlines() if l.startswith("O ") or l.startswith("file ")]
         print("\n".join(l[:300] for l in olines))
         if rc != 0:
